@@ -82,7 +82,7 @@ func TestC01(t *testing.T) {
 
 func TestC02(t *testing.T) {
 	p := &world.Profile{Name: "lock", MinGroups: 1, MaxGroups: 2, Fleet: 1, Auto: 1, MaxInit: 6, SmallGraces: true, Steps: 30,
-		Weights: with(baseWeights(), "advance", 10, "scan", 14, "targetUtil", 10, "cordon", 3, "taintExt", 4, "restart", 1, "fleetPlan", 1, "register", 3, "reconcile", 2, "asgEdit", 2, "drainAndForce", 2, "clearPods", 2, "zeroOut", 1, "idleBlip", 2)}
+		Weights: with(baseWeights(), "advance", 10, "scan", 14, "targetUtil", 10, "cordon", 3, "taintExt", 4, "restart", 1, "fleetPlan", 1, "register", 3, "reconcile", 2, "asgEdit", 2, "drainAndForce", 2, "clearPods", 2, "zeroOut", 1, "idleBlip", 2, "refreshFails", 3)}
 	col := newCollector(t, "C02", "history check; non-trivial = a scan inside a cool-down window for which the unlocked decision would have been an action, or a scan within 1s of the end of a cool-down; distinct by (offset class, would-be action, fleet)")
 	historyCheck(t, &historyOpts{prop: "C02", profile: p, col: col, classify: func(w *world.World, rec *world.ScanRecord) []string {
 		var keys []string
@@ -127,7 +127,7 @@ func TestC02(t *testing.T) {
 
 func TestC03(t *testing.T) {
 	p := &world.Profile{Name: "mintaint", MinGroups: 1, MaxGroups: 2, Auto: 2, MaxInit: 10, SmallGraces: true, Steps: 30, Stale: true,
-		Weights: with(baseWeights(), "asgEdit", 2, "cordon", 3, "taintExt", 3, "targetUtil", 10, "pinAsg", 3)}
+		Weights: with(baseWeights(), "asgEdit", 2, "cordon", 3, "taintExt", 3, "targetUtil", 10, "pinAsg", 3, "refreshFails", 2)}
 	col := newCollector(t, "C03", "history check; non-trivial = a scan in which the clamp binds (rate > untainted - min), or untainted < min (recovery), or min_nodes is auto-discovered; distinct by (clamp, recovery, auto, tainted-present, cordoned-present, k)")
 	historyCheck(t, &historyOpts{prop: "C03", profile: p, col: col, classify: func(w *world.World, rec *world.ScanRecord) []string {
 		var keys []string
@@ -154,7 +154,7 @@ func TestC03(t *testing.T) {
 func TestC04(t *testing.T) {
 	p := &world.Profile{Name: "maxclamp", Linger: true, HugeMax: true, MinGroups: 1, MaxGroups: 2, Fleet: 1, Auto: 1, MaxInit: 8, SmallGraces: true, Steps: 25,
 		FaultFocus: "cloud",
-		Weights:    with(baseWeights(), "targetUtil", 12, "asgEdit", 2, "fleetPlan", 1, "fault", 3, "drainAndForce", 2, "storm", 3, "asgDeleting", 1)}
+		Weights:    with(baseWeights(), "targetUtil", 12, "asgEdit", 2, "fleetPlan", 1, "fault", 3, "drainAndForce", 2, "storm", 3, "asgDeleting", 1, "refreshFails", 2)}
 	col := newCollector(t, "C04", "history check; non-trivial = a scan with a cloud increase request (or a refused one) where max_nodes differs from the cloud maximum or the need exceeds the headroom; distinct by (relation of max_nodes to cloud max, clamped, fleet, recovery, tainted-present)")
 	historyCheck(t, &historyOpts{prop: "C04", profile: p, col: col, classify: func(w *world.World, rec *world.ScanRecord) []string {
 		var keys []string
@@ -195,7 +195,7 @@ func TestC04(t *testing.T) {
 
 func TestC05History(t *testing.T) {
 	p := &world.Profile{Name: "scaleup", MinGroups: 1, MaxGroups: 1, Fleet: 1, Auto: 1, MaxInit: 10, SmallGraces: true, Steps: 20,
-		Weights: with(baseWeights(), "targetUtil", 14, "taintExt", 5, "cordon", 1, "restart", 2, "fleetPlan", 1, "drainAndForce", 1, "killNode", 2, "storm", 2, "asgEdit", 2, "zeroOut", 2, "sizeSeenOutOfBounds", 2, "gracefulDelete", 3)}
+		Weights: with(baseWeights(), "targetUtil", 14, "taintExt", 5, "cordon", 1, "restart", 2, "fleetPlan", 1, "drainAndForce", 1, "killNode", 2, "storm", 2, "asgEdit", 2, "zeroOut", 2, "sizeSeenOutOfBounds", 2, "gracefulDelete", 3, "refreshFails", 3, "replacePod", 3)}
 	col := newCollector(t, "C05", "end-to-end: scans in the scale-up band with equal-size nodes; nodes brought into service = untaints + (requested target - real desired); non-trivial = strict scale-up band with need >= 1; distinct by (need, reused, requested, clamped, bound resource)")
 	historyCheck(t, &historyOpts{prop: "C05", profile: p, col: col, classify: func(w *world.World, rec *world.ScanRecord) []string {
 		var keys []string
@@ -257,7 +257,7 @@ func minI(a, b int) int {
 func TestC07(t *testing.T) {
 	p := &world.Profile{Name: "reuse", Linger: true, MinGroups: 1, MaxGroups: 2, Fleet: 1, Auto: 1, MaxInit: 10, SmallGraces: true, Steps: 25, Stale: true,
 		FaultFocus: "node-writes",
-		Weights:    with(baseWeights(), "targetUtil", 12, "taintExt", 8, "fault", 4, "asgEdit", 1, "cordon", 2, "clearNode", 2, "drainAndForce", 2, "setCreated", 1, "storm", 3, "staleWindow", 3, "raceOnWrite", 3)}
+		Weights:    with(baseWeights(), "targetUtil", 12, "taintExt", 8, "fault", 4, "asgEdit", 1, "cordon", 2, "clearNode", 2, "drainAndForce", 2, "setCreated", 1, "storm", 3, "staleWindow", 3, "raceOnWrite", 3, "refreshFails", 2)}
 	col := newCollector(t, "C07", "history check; scans that untaint or request capacity; non-trivial = 0 < tainted pool < need (partial reuse), creation-time ties in the pool, a failed untaint, or force removal earlier in the same scan; distinct by those flags and pool/need sizes")
 	historyCheck(t, &historyOpts{prop: "C07", profile: p, col: col, classify: func(w *world.World, rec *world.ScanRecord) []string {
 		var keys []string
@@ -296,7 +296,7 @@ func TestC07(t *testing.T) {
 func TestC08(t *testing.T) {
 	p := &world.Profile{Name: "oldest", MinGroups: 1, MaxGroups: 1, Auto: 1, MaxAge: 1, MaxInit: 14, SmallGraces: true, Steps: 12, Stale: true, MaxBelowASG: 1,
 		FaultFocus: "node-writes",
-		Weights:    map[string]int{"scan": 10, "targetUtil": 8, "fault": 3, "launch": 2, "taintExt": 1, "cordon": 1, "advance": 1, "removeTaint": 2, "setCreated": 3, "annotate": 2, "dupNode": 1, "notReady": 4, "terminating": 2, "heartbeat": 5}}
+		Weights:    map[string]int{"scan": 10, "targetUtil": 8, "fault": 3, "launch": 2, "taintExt": 1, "cordon": 1, "advance": 1, "removeTaint": 2, "setCreated": 3, "annotate": 2, "dupNode": 1, "notReady": 4, "terminating": 2, "heartbeat": 5, "foreignTaint": 4}}
 	col := newCollector(t, "C08", "history check; scale-down scans; non-trivial = 0 < tainted < untainted with >= 2 distinct creation times and a view order that is not already oldest-first; also ties and failed writes; distinct by (k, U, distinct times, sorted, ties, failed, stale)")
 	historyCheck(t, &historyOpts{prop: "C08", profile: p, col: col, classify: func(w *world.World, rec *world.ScanRecord) []string {
 		var keys []string
@@ -448,7 +448,7 @@ func dryBranch(w *world.World, rec *world.ScanRecord, gr *world.GroupRec) string
 
 func TestC11(t *testing.T) {
 	p := &world.Profile{Name: "dry", MinGroups: 1, MaxGroups: 3, Dry: 2, Fleet: 1, Auto: 1, MaxInit: 8, SmallGraces: true, Steps: 30,
-		Weights: with(baseWeights(), "targetUtil", 12, "taintExt", 5, "advance", 8, "clearNode", 2, "cordon", 1, "asgEdit", 3, "drainAndForce", 1, "terminating", 2, "gracefulDelete", 1)}
+		Weights: with(baseWeights(), "targetUtil", 12, "taintExt", 5, "advance", 8, "clearNode", 2, "cordon", 1, "asgEdit", 3, "drainAndForce", 1, "terminating", 2, "gracefulDelete", 1, "refreshFails", 3)}
 	col := newCollector(t, "C11", "history check; group 0 is always dry (group option or global flag); non-trivial = a scan in which the dry group took a branch that writes when not dry (recover, scale-up with/without tracked nodes, from zero, scale-down taint, reap of really-expired tainted nodes, force removal); distinct by (branch, via-global, fleet, real expired taints present)")
 	historyCheck(t, &historyOpts{prop: "C11", profile: p, col: col, classify: func(w *world.World, rec *world.ScanRecord) []string {
 		var keys []string
@@ -475,8 +475,8 @@ func TestC11(t *testing.T) {
 // ---------------------------------------------------------------- C12
 
 func TestC12(t *testing.T) {
-	p := &world.Profile{Name: "isolation", Linger: true, MinGroups: 2, MaxGroups: 3, Dry: 1, Fleet: 1, Auto: 1, Default: 1, MaxInit: 6, SmallGraces: true, Steps: 30,
-		Weights: with(baseWeights(), "targetUtil", 12, "taintExt", 4, "fault", 2, "advance", 6, "addPods", 6, "drainAndForce", 1, "noProvNode", 2, "asgEdit", 2, "neighbourFails", 3, "replaceAndReap", 2, "leftoverNode", 3)}
+	p := &world.Profile{Name: "isolation", Linger: true, MinGroups: 2, MaxGroups: 3, Dry: 1, Fleet: 3, Auto: 1, Default: 1, MaxInit: 6, SmallGraces: true, Steps: 30,
+		Weights: with(baseWeights(), "targetUtil", 12, "taintExt", 4, "fault", 2, "advance", 6, "addPods", 6, "drainAndForce", 1, "noProvNode", 2, "asgEdit", 2, "neighbourFails", 3, "replaceAndReap", 2, "leftoverNode", 3, "fleetFailsEverywhere", 2, "refreshFails", 1)}
 	col := newCollector(t, "C12", "history check with 2-3 groups; non-trivial = a scan in which at least two groups act, or one group fails non-fatally before another is processed; distinct by (acting groups, failing group position, default group present)")
 	historyCheck(t, &historyOpts{prop: "C12", profile: p, col: col, classify: func(w *world.World, rec *world.ScanRecord) []string {
 		acting, failedBefore := 0, false
@@ -598,8 +598,8 @@ func stringIndex(s, sub string) int {
 // ---------------------------------------------------------------- C20
 
 func TestC20(t *testing.T) {
-	p := &world.Profile{Name: "chaos", Linger: true, OddConfig: true, DupTaints: true, MinGroups: 1, MaxGroups: 3, Dry: 1, Fleet: 1, Auto: 1, Default: 1, Starve: 1, MaxAge: 1, MaxInit: 6, SmallGraces: true, Steps: 30, Stale: true,
-		Weights: with(baseWeights(), "oddNode", 5, "oddPod", 5, "fault", 8, "taintExt", 6, "killNode", 2, "detach", 1, "asgEdit", 1, "fleetPlan", 2, "advance", 8, "gcNodes", 1, "staleWindow", 2, "zeroOut", 1, "tinyThenZero", 2, "dupNode", 2, "terminating", 2, "latency", 1, "leftoverNode", 2)}
+	p := &world.Profile{Name: "chaos", Linger: true, OddConfig: true, DupTaints: true, MinGroups: 1, MaxGroups: 3, Dry: 1, Fleet: 1, Auto: 1, Default: 1, Starve: 1, MaxAge: 1, MaxInit: 10, SmallGraces: true, Steps: 30, Stale: true,
+		Weights: with(baseWeights(), "oddNode", 5, "oddPod", 5, "fault", 8, "taintExt", 6, "killNode", 2, "detach", 1, "asgEdit", 1, "fleetPlan", 2, "advance", 8, "gcNodes", 1, "staleWindow", 2, "zeroOut", 1, "tinyThenZero", 2, "dupNode", 2, "terminating", 2, "latency", 1, "leftoverNode", 2, "massDeleteFails", 2, "fleetFailsEverywhere", 1, "refreshFails", 1, "clonePod", 1)}
 	col := newCollector(t, "C20", "chaos histories: malformed nodes/pods, absurd taint values, API and cloud failures at drawn call indices; non-trivial = a scan in which an injected failure was hit, or an odd object was part of a processed in-bounds group; distinct by (fault kinds hit, odd kinds present, outcome)")
 	historyCheck(t, &historyOpts{prop: "C20", profile: p, col: col, classify: func(w *world.World, rec *world.ScanRecord) []string {
 		var keys []string
@@ -642,7 +642,7 @@ func sortStrings(s []string) {
 
 func TestC13History(t *testing.T) {
 	p := &world.Profile{Name: "gauges", MinGroups: 1, MaxGroups: 2, Auto: 1, Default: 1, MaxInit: 8, SmallGraces: true, Steps: 25, Stale: true,
-		Weights: with(baseWeights(), "addPods", 8, "targetUtil", 6, "cordon", 5, "taintExt", 4, "schedule", 2, "replacePod", 6, "resizePod", 4, "gracefulDelete", 4)}
+		Weights: with(baseWeights(), "addPods", 8, "targetUtil", 6, "cordon", 5, "taintExt", 4, "schedule", 2, "replacePod", 6, "resizePod", 4, "gracefulDelete", 4, "clonePod", 3)}
 	col := newCollector(t, "C13", "end-to-end: after every scan the request and capacity gauges are compared with exact totals computed from the view (pods by the reference attribution, allocatable over untainted uncordoned nodes) with shuffled list orders; non-trivial = a scan with init containers or overhead among the pods, or cordoned/tainted nodes next to untainted ones, in a shuffled order; distinct by (pods, classes present, shuffled)")
 	historyCheck(t, &historyOpts{prop: "C13", profile: p, col: col, classify: func(w *world.World, rec *world.ScanRecord) []string {
 		var keys []string
@@ -669,7 +669,7 @@ func TestC13History(t *testing.T) {
 
 func TestC18History(t *testing.T) {
 	p := &world.Profile{Name: "fleetfail", MinGroups: 1, MaxGroups: 2, Fleet: 2, Auto: 1, MaxInit: 6, SmallGraces: true, Steps: 25,
-		Weights: with(baseWeights(), "targetUtil", 14, "scan", 14, "fleetPlan", 8, "fault", 2, "advance", 4, "taintExt", 1, "cordon", 1)}
+		Weights: with(baseWeights(), "targetUtil", 14, "scan", 14, "fleetPlan", 8, "fault", 2, "advance", 4, "taintExt", 1, "cordon", 1, "fleetFailsEverywhere", 2)}
 	col := newCollector(t, "C18", "history half: fleet-mode groups whose CreateFleet / readiness / attach steps fail in drawn ways; the scan after a failed scale-up, inside what would have been the cool-down, is judged as unlocked by the band oracle; non-trivial = a scan that follows a failed fleet scale-up of the same group and for which the band oracle demands an action; distinct by (failure shape, expected band)")
 	historyCheck(t, &historyOpts{prop: "C18", profile: p, col: col, classify: func(w *world.World, rec *world.ScanRecord) []string {
 		var keys []string
@@ -693,7 +693,7 @@ func TestC18History(t *testing.T) {
 
 func TestC14History(t *testing.T) {
 	p := &world.Profile{Name: "attribution", MinGroups: 1, MaxGroups: 3, Auto: 1, Default: 1, MaxInit: 5, SmallGraces: true, Steps: 25,
-		Weights: map[string]int{"scan": 12, "addPods": 10, "replacePod": 6, "retargetPod": 6, "finishPods": 3, "targetUtil": 3, "schedule": 2, "launch": 2, "cordon": 1, "taintExt": 1, "advance": 1, "restart": 1, "oddPod": 3, "noProvNode": 2, "gracefulDelete": 4, "resizePod": 2}}
+		Weights: map[string]int{"scan": 12, "addPods": 10, "replacePod": 6, "retargetPod": 6, "finishPods": 3, "targetUtil": 3, "schedule": 2, "launch": 2, "cordon": 1, "taintExt": 1, "advance": 1, "restart": 1, "oddPod": 3, "noProvNode": 2, "gracefulDelete": 4, "resizePod": 2, "clonePod": 4}}
 	col := newCollector(t, "C14", "end-to-end: along histories in which pods come, go and are re-created under the same name with a different selector / affinity / owner / static annotation, the number of pods and nodes each scan saw (count gauges set from the real filtered listers, which live across scans) equals the documented attribution; non-trivial = a scan after a same-name replacement that changed the pod's group, or with >= 2 groups sharing a label key; distinct by situation digest")
 	historyCheck(t, &historyOpts{prop: "C14", profile: p, col: col, classify: func(w *world.World, rec *world.ScanRecord) []string {
 		replaced := 0
